@@ -767,12 +767,25 @@ pub fn gen_queries_j(rng: &mut StdRng, keys: &Keys, pool: &mut Pool) -> Vec<Valu
         .map(|_| {
             let (name, cols) = *pick(rng, &PREDS);
             let vars: Vec<Term> = (0..cols.len()).map(|i| Term::Variable(format!("q{i}"))).collect();
-            let r = Rule::new(
-                Predicate { name: "data".into(), terms: vars.clone() },
-                vec![Predicate { name: name.into(), terms: vars }],
-                vec![],
-                gen_scopes(rng, keys, 3),
-            );
+            let r = if rng.gen_range(0..3) == 0 {
+                // the predicate joined with itself: more rows than there are facts
+                let vars2: Vec<Term> = (0..cols.len()).map(|i| Term::Variable(format!("r{i}"))).collect();
+                let mut head = vars.clone();
+                head.extend(vars2.iter().cloned());
+                Rule::new(
+                    Predicate { name: "data".into(), terms: head },
+                    vec![Predicate { name: name.into(), terms: vars }, Predicate { name: name.into(), terms: vars2 }],
+                    vec![],
+                    gen_scopes(rng, keys, 3),
+                )
+            } else {
+                Rule::new(
+                    Predicate { name: "data".into(), terms: vars.clone() },
+                    vec![Predicate { name: name.into(), terms: vars }],
+                    vec![],
+                    gen_scopes(rng, keys, 3),
+                )
+            };
             json!({"all": rng.gen::<bool>(), "q": rule_j(&r, pool, keys)})
         })
         .collect()
